@@ -9,7 +9,7 @@
 //! `Enum`, object <-> `Object`, `$v` <-> `Variable`), same inline-fragment types, `Linked` vs
 //! `Scalar` consistent with the operation and with the schema, `concreteType` = the field's type
 //! name exactly when that type is an object type and `null` when it is an interface or union.
-use crate::driver::{self, ArtExclusions, CaseInfo, Compiled};
+use crate::driver::{self, CaseInfo, Compiled};
 use crate::ops;
 use gen_project::Project;
 use refgql::schema::TypeKind;
@@ -273,7 +273,7 @@ pub fn run(args: &Args) {
          or arguments; distinct by the set of such operation texts",
     );
     report.assumption("operations whose text does not parse are C09's business and are skipped here (counted)");
-    let ex = ArtExclusions::default();
-    driver::run_single(args, &report, 1600, 48_000, &ex, &oracle);
+    let ex = driver::negative_int_exclusion();
+    driver::run_single(args, &report, 4000, 120_000, &ex, &oracle);
     report.finish();
 }
